@@ -13,10 +13,15 @@ class SPEC:
             "at run time) x {IPv4, IPv6 listener when the host has ::1}; sessions of a template (1..12 registry elements of supported "
             "types, all three registries) followed by data messages of 1..n records with values from the C15 generator - variable-length "
             "boundaries 0/254/255/256 always in the mix, one maximal-payload record per tcp session, extreme numeric and float patterns. "
-            "Sends are lock-step (next message only after the previous one was delivered). What GetMsgChan() delivers is compared with the "
-            "model's prediction and judged by Ipfix chkE2E directly against what was handed to SendSet. Non-trivial = >= 2 fields incl. one "
-            "variable-length or enterprise element; distinct by hash.")
+            "Sends are lock-step (next message only after the previous one was delivered), except for one BURST in about a quarter of the "
+            "sessions (at least half of the dtls ones): 3..6 small data sets of 1..3 records with distinct values, most of them of one "
+            "size, handed to SendSet back-to-back while nobody reads GetMsgChan(); only then are the deliveries collected. What GetMsgChan() "
+            "delivers is compared with the model's prediction and judged by Ipfix chkE2E directly against what was handed to SendSet "
+            "(burst: over tcp/tls every message, in order; over udp/dtls a datagram may be lost, but what is delivered is a subsequence of "
+            "what was sent - found by sequence number - and equal to it). Non-trivial = >= 2 fields incl. one variable-length or enterprise "
+            "element; distinct by hash.")
     assumptions = ["transports are the identity on messages once established (TCP framing: C11; UDP one datagram per message; TLS/DTLS trusted)",
+                   "a burst over udp/dtls may lose datagrams on the loopback (messages of a burst are < 1200 bytes to make that unlikely); loss alone is not judged",
                    "ordinary UDP messages are kept <= 60000 bytes (some sessions add ONE datagram of the maximal payload: 65507 bytes over IPv4, 65527 over IPv6) and DTLS messages <= 8000 bytes (record size limits of the transport)"]
     trusted = ["crypto/tls, pion/dtls, the loopback interface"]
 
@@ -32,7 +37,52 @@ def has_v6(harness):
 BOUNDARY = [0, 1, 253, 254, 255, 256, 300]
 
 
-def session(rng, sup, transport, fam, limit):
+BURST_MAX = 1200     # bytes of one message of a burst
+
+
+def burst(rng, ies, tid):
+    """one `e2e burst` op: 3..6 data sets of 1..3 records; every value that can differ differs from set to set; in
+    most bursts all messages have one size (same record count, same lengths of the variable-length values), so that
+    bytes of one message read as another message still decode"""
+    import gen.ipfix as W
+    k = rng.choice([3, 3, 4, 5, 6, 6])
+    uniform = rng.random() < 0.75
+    for attempt in range(6):
+        maxlen = [60, 30, 12, 4, 1, 0][attempt]
+        nrecs = [rng.randint(1, 3)] * k if uniform else [rng.randint(1, 3) for _ in range(k)]
+        shape = [[rng.choice([0, 1, 2, 7, 20, maxlen]) if maxlen else 0 for _ in ies] for _ in range(3)]
+        sets, seen, ok = [], set(), True
+        for i in range(k):
+            recs = []
+            for r in range(nrecs[i]):
+                for _ in range(20):
+                    vals = []
+                    for j, ie in enumerate(ies):
+                        if ie.len == 65535:
+                            n = min(shape[r][j], maxlen) if uniform else rng.choice([0, 1, 5, maxlen])
+                            if ie.ty == 13 and rng.random() < 0.5:
+                                v = "x" + G.hexs(bytes(rng.choice(b"abcdefghijklmnopqrstuvwxyz0123456789") for _ in range(n)))
+                            else:
+                                v = "x" + G.hexs(G.rand_bytes(rng, n))
+                        else:
+                            v = G.well_typed_value(rng, ie, big_ok=False, maxlen=maxlen)
+                        vals.append(v)
+                    key = W.record_bytes(ies, vals)
+                    if key not in seen:
+                        break
+                seen.add(key)
+                recs.append(vals)
+            size = 16 + 4 + sum(len(W.record_bytes(ies, v)) for v in recs)
+            if size >= BURST_MAX:
+                ok = False
+                break
+            sets.append(";".join("%d@%s" % (tid, ",".join("%s=%s" % (ie.tok(), v) for ie, v in zip(ies, vals))) for vals in recs))
+        if ok:
+            return "e2e burst %s %d %s" % (rng.choice(X.PATHS), tid, " ".join(sets))
+    return None
+
+
+def session(rng, sup, transport, fam, limit, with_burst=False):
     ies = X.pick_ies(rng, sup, user_ok=False, maxn=12)
     if rng.random() < 0.6 and not any(ie.len == 65535 for ie in ies):
         ies.append(rng.choice(G.by_type()[13]))
@@ -54,6 +104,13 @@ def session(rng, sup, transport, fam, limit):
         op = "e2e send %s d %d %s" % (rng.choice(X.PATHS), tid, ";".join(recs))
         if len(op) // 2 < limit:
             ops.append(op)
+    if with_burst:
+        b = burst(rng, ies, tid)
+        if b is not None:
+            ops.append(b)
+            if rng.random() < 0.3:
+                # and the session goes on in lock-step
+                ops.append("e2e send %s d %d %d@%s" % (rng.choice(X.PATHS), tid, tid, X.elems(rng, ies, True, maxlen=40)))
     # the largest message that fits: 65535 bytes on a stream, a whole datagram over UDP (65507 bytes of payload
     # over IPv4, 65527 over IPv6 - the collector's buffer must take both)
     full = {"tcp": 65535, "tls": 65535, "udp": 65527 if fam == "6" else 65507}.get(transport)
@@ -78,6 +135,22 @@ def session(rng, sup, transport, fam, limit):
     return Case(ops, "%s%s" % (transport, fam), nt, True)
 
 
+def relation(op, impl, model):
+    """implementation line vs model line: equal, except that a burst may lose datagrams (the model's transports lose
+    nothing): same SendSet results, and the delivered messages are a subsequence of the model's. Whether a loss is
+    acceptable (udp/dtls) or not (tcp/tls) is for the chk line to say."""
+    if impl == model:
+        return True
+    if not op.startswith("e2e burst ") or not impl.startswith("burst ") or not model.startswith("burst "):
+        return False
+    i, m = impl.split(" ", 2), model.split(" ", 2)
+    if len(i) < 3 or len(m) < 3 or i[1] != m[1]:
+        return False
+    got = [] if i[2] == "none" else i[2].split(" | ")
+    it = iter([] if m[2] == "none" else m[2].split(" | "))
+    return all(any(x == y for y in it) for x in got)
+
+
 def run(ctx):
     rng = random.Random(ctx.seed * 1000003 + 1)
     sup = G.registry_supported()
@@ -87,10 +160,14 @@ def run(ctx):
     cases = []
     for tr, n in plan.items():
         for k in range(n):
-            cases.append(session(rng, sup, tr, fams[k % len(fams)], limits[tr]))
+            # a quarter of the sessions carry a burst; of the few dtls sessions, every second one and a quarter of the rest
+            wb = rng.random() < 0.25 or (tr == "dtls" and k % 4 < 2)
+            cases.append(session(rng, sup, tr, fams[k % len(fams)], limits[tr], wb))
     rng.shuffle(cases)
-    res = run_simple(ctx, cases, "C01", chk_filter=lambda op: True, stateful_chk=True,
+    res = run_simple(ctx, cases, "C01", chk_filter=lambda op: True, stateful_chk=True, relation=relation,
                      signature=lambda c, oi, v, agrees: "C01:%s:%s" % (c.label, " ".join(v.split(" ")[:2])))
-    res["evaluations"] = sum(1 for c in cases for o in c.ops if o.startswith("e2e send"))
+    res["evaluations"] = sum(1 for c in cases for o in c.ops if o.startswith("e2e send") or o.startswith("e2e burst"))
+    nb = [sum(1 for c in cases if c.label.startswith(tr) and any(o.startswith("e2e burst") for o in c.ops)) for tr in plan]
+    res["notes"].append("sessions with a burst: %s" % ", ".join("%s %d/%d" % (tr, n, plan[tr]) for tr, n in zip(plan, nb)))
     res["notes"].append("address families exercised: %s" % ",".join(fams))
     return res
